@@ -710,7 +710,12 @@ func (z *zzC0102Srv) persistent(c zzC0102Client) (p *client.Persistent) {
 		// The exact-address identifier of a link-local client is written
 		// with its zone (an identifier can carry one, and fe80::1 on another
 		// interface is another host); a mapped address denotes the IPv4 one.
-		p.IPs = []netip.Addr{z.af.wire(z.af.c1, z.af.form != "zoned")}
+		// (Both spellings are listed, so that the client is the same one
+		// with and without the zone.)
+		p.IPs = []netip.Addr{netip.MustParseAddr(z.af.c1)}
+		if z.af.form == "zoned" {
+			p.IPs = append(p.IPs, z.af.wire(z.af.c1, false))
+		}
 	}
 
 	return p
